@@ -50,12 +50,30 @@ Proof. exact (conj w_state_good2 (conj w_hist_bounds w_hist_issued)). Qed.
    does, the batch issues none, and the block is sealed *)
 From MelVerif Require Import STF.Proofs.PoolHistory STF.Proofs.Born.
 Lemma w_born :
-  Unborn w_K3 w_oracle MS w_state /\
+  Unborn w_K3 w_oracle MS w_state /\ Unborn w_K3 w_oracle ES w_state /\
   hist_all w_oracle (pool_bounds_step_ok w_K3 w_oracle MS) w_state ([HBatch w_header w_batch] ++ HBlock (Some w_action) w_header :: []) /\
   (exists sealed, seal w_oracle (fold_left (hstep w_oracle) [HBatch w_header w_batch] w_state) (Some w_action) = Ok sealed).
 Proof.
-  split; [split; [reflexivity|vm_compute; discriminate]|]. split.
+  split; [split; [reflexivity|split; [vm_compute; discriminate|intros E; vm_compute in E; discriminate]]|].
+  split; [split; [reflexivity|split; [vm_compute; discriminate|intros _; vm_compute; reflexivity]]|]. split.
   - pose proof w_hist_bounds as H. unfold w_hist in H. cbn [hist_all app] in *. destruct H as (A & B & _).
     split; [split; [exact A|vm_compute; reflexivity]|]. split; [split; [exact B|exact I]|exact I].
   - vm_compute. eexists. reflexivity.
+Qed.
+
+(* ... and of [seal_total_from_born]: all three built-in pools are unborn in the starting state and the batch
+   issues none of their tokens *)
+From MelVerif Require Import STF.Proofs.SealTotal.
+Lemma w_total_from_born :
+  Good2 w_state /\ (forall k, builtin k -> BornBacked w_K3 w_oracle k w_state) /\
+  hist_all w_oracle (builtins_step_ok w_K3 w_oracle) w_state [HBatch w_header w_batch].
+Proof.
+  split; [exact w_state_good2|]. split.
+  - intros k [-> | [-> | ->]]; right; (split; [reflexivity|split; [vm_compute; discriminate|]]).
+    + intros E; vm_compute in E; discriminate.
+    + intros E; vm_compute in E; discriminate.
+    + intros _. vm_compute. reflexivity.
+  - cbn [hist_all]. split; [|exact I]. intros k Hk.
+    pose proof w_hist_bounds as H. unfold w_hist in H. cbn [hist_all] in H. destruct H as (A & _).
+    split; [exact A|]. destruct Hk as [-> | [-> | ->]]; vm_compute; reflexivity.
 Qed.
